@@ -7,6 +7,11 @@ COMMON_ASSUMPTIONS = [
 ]
 
 PROPS = {
+    "C09": {
+        "kinds": [("C09", 800, 10000), ("C09T", 0, 4000)],
+        "rule": "one random binary tree (total/partial, index holes) with a skip schedule for polyhedra(), the plain polyhedra_iter() stream, and 10 inputs (half on hyperplanes) for find_terminal; regions compared with the closed path half-spaces, routing both ways, disjoint interiors decided exactly for up to 8 terminals; non-trivial = at least 5 nodes; distinct by case text",
+        "assumptions": COMMON_ASSUMPTIONS + ["cover of the input space by the terminal regions of a total tree follows from the reported regions being exactly the two closed sides of every decision, which is what is compared"],
+    },
     "C14": {
         "kinds": [("C14", 2000, 30000)],
         "rule": "one constructor / transformation call of Polytope per case (intersection, intersection_n incl. empty list, translate, apply_pre, apply_post with exact unimodular inverse pairs, rotate with signed permutations, hypercube, hyperrectangle and axis_bounds with infinite bounds, unbounded, empty, simplex, cross_polytope, from_normal), dims 1-4; 10 lattice points per case, half on a facet; membership, contains and distance signs judged exactly; non-trivial = the call returns; distinct by case text",
@@ -68,7 +73,7 @@ PROPS = {
         "assumptions": COMMON_ASSUMPTIONS + ["indices of new nodes are not compared (slab policy), only required to be fresh and distinct"],
     },
     "C13": {
-        "kinds": [("C13", 1500, 20000), ("C13T", 0, 8000)],
+        "kinds": [("C13", 1500, 20000), ("C13T", 0, 8000), ("C09", 300, 3000)],
         "rule": "one (tree shape with index holes, K in {2,3}; start node; traversal kind; skip schedule with repeated skips) per case plus all metrics; non-trivial = tree has at least 5 nodes; distinct by case text",
         "assumptions": COMMON_ASSUMPTIONS + ["size_hint is judged against the number of items still to come if skip_subtree is not called again (the iterator cannot know future skips)"],
     },
